@@ -85,7 +85,6 @@ func main() {
 			os.Exit(2)
 		}
 		tmp, _ := os.MkdirTemp("", "vreplay-")
-		defer os.RemoveAll(tmp)
 		_ = os.Chdir(tmp)
 		known, _ := run.LoadKnown(root)
 		res := run.RunCase(ck, tier, seed, idx, bin, root, tmp, known, os.Getenv("VERIF_SAVE") == "1", false)
@@ -100,6 +99,8 @@ func main() {
 				code = 1
 			}
 		}
+		_ = os.Chdir(root)
+		_ = os.RemoveAll(tmp)
 		os.Exit(code)
 	}
 	fmt.Fprintln(os.Stderr, "unknown command", os.Args[1])
